@@ -17,6 +17,14 @@ mod syncer;
 pub mod test_utils;
 mod utils;
 
+/// Verification hooks (only with `--cfg eigerco_lumina_verif`); strictly additive re-exports.
+#[cfg(eigerco_lumina_verif)]
+pub mod verif {
+    pub use crate::block_ranges::verif_hooks as block_ranges;
+    pub use crate::pruner::verif_hooks as pruner;
+    pub use crate::syncer::verif_hooks as syncer;
+}
+
 #[cfg(all(target_arch = "wasm32", test))]
 wasm_bindgen_test::wasm_bindgen_test_configure!(run_in_browser);
 
